@@ -63,6 +63,9 @@ structure DL where
 
 abbrev St := List DL
 
+/-- Driver state: the lists and the rebuild task waiting in the channel. -/
+abbrev DSt := St × Option (List Bool)
+
 def showFile : Option Bytes → String
   | none => "~"
   | some b => hexEncode b
@@ -161,7 +164,8 @@ def stepRefresh (st : St) (ins impl : List String) : Option (St × String) := do
       | none => pure (st, verdict false none m)
   | _ => none
 
-def stepSetURL (st : St) (ins impl : List String) : Option (St × String) := do
+def stepSetURL (dst : DSt) (ins impl : List String) : Option (DSt × String) := do
+  let st := dst.1
   match ins with
   | [i, j, k, en, kind, data, complete] =>
     let i ← i.toNat?
@@ -175,7 +179,8 @@ def stepSetURL (st : St) (ins impl : List String) : Option (St × String) := do
     let dup := (List.range st.length).any fun x => x != i && ((st[x]?).map (·.url) == some newURL)
     let rq : SetReq := ⟨changed, dup, en⟩
     let o := setProps d.l.flt rq f
-    let (ls', res) := setURLStep (st.map (·.l)) i rq f
+    let (bs', res) := setURLAsync ⟨st.map (·.l), dst.2⟩ i rq f
+    let ls' := bs'.ls
     let okS := match res with | .ok _ => true | .err => false
     let rows := (List.range st.length).filterMap fun x => do
       let new ← ls'[x]?
@@ -188,7 +193,7 @@ def stepSetURL (st : St) (ins impl : List String) : Option (St × String) := do
     | status :: uc :: rest =>
       match parseObsList rest, parseBool uc with
       | some obs, some ucI =>
-        if obs.length != st.length then pure (st, verdict false none m)
+        if obs.length != st.length then pure (dst, verdict false none m)
         else
           let whys := (List.range st.length).filterMap fun x => do
             let dx ← st[x]?
@@ -200,27 +205,63 @@ def stepSetURL (st : St) (ins impl : List String) : Option (St × String) := do
             let o ← obs[x]?
             let dx ← st[x]?
             pure (⟨new, o, if x == i && ucI then newURL else dx.url⟩ : DL)
-          pure (st', verdict agree (whys.head?.map ("C15." ++ ·)) m)
-      | _, _ => pure (st, verdict false none m)
-    | _ => pure (st, verdict false none m)
+          pure ((st', bs'.pending), verdict agree (whys.head?.map ("C15." ++ ·)) m)
+      | _, _ => pure (dst, verdict false none m)
+    | _ => pure (dst, verdict false none m)
   | _ => none
 
-def step (st : St) (line : String) : St × String :=
+def rowsOf (ls : List LState) : List String :=
+  (List.range ls.length).filterMap fun x => do
+    let new ← ls[x]?
+    pure ("\t".intercalate [toString new.flt.count, toString new.flt.checksum, showFile new.flt.file,
+      toString (maskOf x new.inForce), "0", reparse new.flt.file])
+
+/-- `set_rules` (any handler that only requests a rebuild) and the loop step. -/
+def stepQueue (isLoop : Bool) (dst : DSt) (impl : List String) : Option (DSt × String) := do
+  let st := dst.1
+  let bs : BState := ⟨st.map (·.l), dst.2⟩
+  let bs' := if isLoop then drain bs else enqueue bs
+  let m := "\t".intercalate ((if isLoop then [] else ["200"]) ++ rowsOf bs'.ls)
+  let agree := m == "\t".intercalate impl
+  let rest := if isLoop then impl else impl.drop 1
+  match parseObsList rest with
+  | some obs =>
+    if obs.length != st.length then pure (dst, verdict false none m)
+    else
+      let whys := (List.range st.length).filterMap fun x => do
+        let dx ← st[x]?
+        let o ← obs[x]?
+        let new ← bs'.ls[x]?
+        match refreshSpecWhy x dx.prev Fetch.fail false o with
+        | some w => some w
+        | none => if isLoop then loopSpecWhy x new.flt.enabled o else none
+      let st' := (List.range st.length).filterMap fun x => do
+        let new ← bs'.ls[x]?
+        let o ← obs[x]?
+        let dx ← st[x]?
+        pure (⟨new, o, dx.url⟩ : DL)
+      pure ((st', bs'.pending), verdict agree (whys.head?.map ("C15." ++ ·)) m)
+  | none => pure (dst, verdict false none m)
+
+def step (dst : DSt) (line : String) : DSt × String :=
   match splitTab line with
   | op :: rest =>
     match splitArrow rest with
-    | none => (st, "bad-op")
+    | none => (dst, "bad-op")
     | some (ins, impl) =>
       match op with
-      | "C15.parse" => (st, (stepParse ins impl).getD "bad-op")
-      | "C15.trim" => (st, (stepTrim ins impl).getD "bad-op")
-      | "C15.lastrune" => (st, (stepLastRune ins impl).getD "bad-op")
-      | "C15.reset" => (match stepReset ins with | some (s, o) => (s, o) | none => (st, "bad-op"))
-      | "C15.refresh" => (match stepRefresh st ins impl with | some (s, o) => (s, o) | none => (st, "bad-op"))
-      | "C15.seturl" => (match stepSetURL st ins impl with | some (s, o) => (s, o) | none => (st, "bad-op"))
-      | _ => (st, "bad-op")
-  | [] => (st, "bad-op")
+      | "C15.parse" => (dst, (stepParse ins impl).getD "bad-op")
+      | "C15.trim" => (dst, (stepTrim ins impl).getD "bad-op")
+      | "C15.lastrune" => (dst, (stepLastRune ins impl).getD "bad-op")
+      | "C15.reset" => (match stepReset ins with | some (s, o) => ((s, none), o) | none => (dst, "bad-op"))
+      | "C15.refresh" =>
+        (match stepRefresh dst.1 ins impl with | some (s, o) => ((s, dst.2), o) | none => (dst, "bad-op"))
+      | "C15.seturl" => (match stepSetURL dst ins impl with | some (s, o) => (s, o) | none => (dst, "bad-op"))
+      | "C15.setrules" => (match stepQueue false dst impl with | some (s, o) => (s, o) | none => (dst, "bad-op"))
+      | "C15.loop" => (match stepQueue true dst impl with | some (s, o) => (s, o) | none => (dst, "bad-op"))
+      | _ => (dst, "bad-op")
+  | [] => (dst, "bad-op")
 
 end C15Drv
 
-def main : IO Unit := run C15Drv.step []
+def main : IO Unit := run C15Drv.step ([], none)
